@@ -335,8 +335,8 @@ func (fr *Frame) frameObligations(fc *FuncContract, pre *Env, entry, final *Stat
 	}
 	cnt0 := entry.Get("$cnt", "Int")
 	for _, name := range sortedKeys(final.m) {
-		if name == "$cnt" || wholeOK[name] {
-			continue
+		if name == "$cnt" || wholeOK[name] || strings.HasPrefix(name, "$vis.") {
+			continue // $vis.*: ghost visited sets of this function's own range loops
 		}
 		if fc.AssignsAny && !strings.HasPrefix(name, "$") {
 			continue
